@@ -13,7 +13,7 @@ WORDS = ["alpha", "bravo", "chunk", "delta", "echo", "frame", "gamma", "hotel", 
 FEATURES = ["enums", "signed_enum", "bits_type", "anon_bits", "leaf_struct", "params", "cond", "dyn_array",
             "struct_array", "param_struct_array", "next", "virtuals", "transforms", "requires", "struct_requires",
             "union", "dyn_offset", "bcd", "float", "skip", "no_default_order", "wide", "int_fields", "max_present",
-            "nested_cond", "bits_array"]
+            "nested_cond", "bits_array", "struct_default_order", "emit_attr"]
 
 
 class Names:
@@ -69,8 +69,18 @@ class Gen:
         self.leafs = []      # (StructDef, size_units) fixed-size struct types usable as fields
         self.bits_types = []  # (StructDef, bits)
         self.default_order = None if "no_default_order" in feats else rng.choice(["LittleEndian", "BigEndian"])
+        self.module_default_order = self.default_order
 
     # -- helpers
+    def draw_struct_default(self):
+        """Possibly gives the struct being generated its own [$default byte_order]; returns it (or None)."""
+        self.default_order = self.module_default_order
+        if "struct_default_order" in self.f and self.rng.random() < 0.5:
+            d = self.rng.choice(["LittleEndian", "BigEndian"])
+            self.default_order = d
+            return d
+        return None
+
     def order_attr(self, nbytes):
         """byte_order attribute text for a field of nbytes bytes."""
         if nbytes <= 1:
@@ -194,6 +204,7 @@ class Gen:
     def make_leaf_struct(self):
         """A fixed-size struct, optionally parameterised."""
         name = self.names.camel()
+        struct_default = self.draw_struct_default()
         params = []
         if "params" in self.f and self.rng.random() < 0.7:
             pk = self.rng.choice(["UInt", "UInt", "Int"])
@@ -225,7 +236,7 @@ class Gen:
             k = self.rng.randint(lo, hi)
             fields.append(D.Field(self.names.snake(), expr=D.Const(self.rng.randint(0, 50)),
                                   cond=D.Bin(self.rng.choice([">", "<", "==", "!="]), D.Param(params[0][0]), D.Const(k))))
-        sd = D.StructDef(name, "struct", params=params, fields=fields)
+        sd = D.StructDef(name, "struct", params=params, fields=fields, default_byte_order=struct_default)
         self.structs.append(sd)
         self.leafs.append((sd, off))
         return sd
@@ -234,6 +245,7 @@ class Gen:
     def make_main(self):
         rng = self.rng
         name = self.names.camel()
+        struct_default = self.draw_struct_default()
         fields = []
         ints = []    # IntSrc usable in expressions (small bounds)
         bools = []   # (expr) boolean sources
@@ -487,8 +499,17 @@ class Gen:
                     e = D.Bin("-", D.Const(c), s.expr)
                 vf = D.Field(self.names.snake(), expr=e)
                 vf.writable = (s.name, form, c)
+                if "requires" in self.f and rng.random() < 0.4:
+                    lo, hi = {"alias": (s.lo, s.hi), "plus": (s.lo + c, s.hi + c), "minus": (s.lo - c, s.hi - c),
+                              "rminus": (c - s.hi, c - s.lo)}[form]
+                    k = rng.randint(lo, min(hi, lo + 300))
+                    vf.requires = D.Bin(rng.choice(["<=", ">=", "!=", "<", ">"]), D.This(), D.Const(k))
                 fields.append(vf)
-        sd = D.StructDef(name, "struct", fields=fields)
+        sd = D.StructDef(name, "struct", fields=fields, default_byte_order=struct_default)
+        if "emit_attr" in self.f:
+            for f in fields:
+                if not f.skip and not isinstance(f.type, D.AnonBits) and rng.random() < 0.25:
+                    f.emit = True
         if "struct_requires" in self.f and len(ints) >= 1 and rng.random() < 0.5:
             s = rng.choice(ints)
             sd.requires = D.Bin(rng.choice(["<=", "!=", ">="]), s.expr, D.Const(rng.randint(s.lo, min(s.hi, s.lo + 10))))
@@ -558,7 +579,7 @@ class Gen:
         mains = []
         for _ in range(rng.randint(1, 2)):
             mains.append(self.make_main())
-        m = D.ModuleDef("sim", self.default_order, self.enums, self.structs)
+        m = D.ModuleDef("sim", self.module_default_order, self.enums, self.structs)
         m.mains = [s.name for s in mains]
         return m
 
